@@ -233,7 +233,8 @@ class BracedNameToken(XPathToken):
             namespace = ''
         else:
             value = self.parser.next_token.value
-            assert isinstance(value, str)
+            if not isinstance(value, str):
+                value = self.parser.next_match.group() if self.parser.next_match else ''
             namespace = value + self.parser.advance_until('}')
             namespace = collapse_white_spaces(namespace)
 
